@@ -786,23 +786,17 @@ def _n_nl_group(kind, n):
 
 
 FINDING_RULES = [
-    ("kf-c06-float-integral", _c_float, _n_float),
     ("kf-c06-int-zero", _c_negzero, _n_negzero),
-    ("kf-c06-text-not-escaped", _c_text, _n_text),
     ("kf-c06-bytes-quote", _c_bytesq, _n_bytesq),
-    ("kf-c06-unwrap-dropped", _c_unwrap, _n_unwrap),
-    ("kf-c06-tag-without-type", _c_tag_empty, _n_tag_empty),
-    ("kf-c06-operator-glued-to-name", _c_op_glue, _n_op_glue),
-    ("kf-c06-control-glued-to-controller", _c_ctl_glue, _n_ctl_glue),
     ("kf-c06-comma-dropped-after-hash", _c_any_digit, _n_any_digit),
     ("kf-c06-newline-in-literal-deleted", _c_nl_group, _n_nl_group),
 ]
+# classifiers of findings that were repaired in /repo (findings.d/C06.json "fixed") are kept above only as generator helpers
+# (_c_float, _c_text, _c_unwrap, _c_tag_empty, _c_op_glue, _c_ctl_glue); a recurrence of those classes is a VIOLATION
 
 
 def active_rules():
-    if ACTIVE["rules"] is None:
-        return FINDING_RULES
-    return [r for r in FINDING_RULES if r[0] in ACTIVE["rules"]]
+    return FINDING_RULES
 
 
 def classify(shape, rules=None):
@@ -989,40 +983,23 @@ def shrink(shape, still_fails_batch, max_rounds=60):
 # comment placement hazards (C16 findings): predicates on the slot a comment is attached to and its path in the AST
 # ---------------------------------------------------------------------------------------------
 
+# witnesses of repaired C16 findings (findings.d/C16.json "fixed"): run first, must pass
+C16_FIXED_WITNESSES = [("a = int / tstr", "a = int ; c1\n / tstr", [" c1"]),
+                       ("a = (int) / x", "a = (int ; c1\n) / x", [" c1"]),
+                       ("a = int / tstr / bool", "a = int ; c1\n ; c2\n / tstr / bool", [" c1", " c2"])]
+
 C16_WITNESSES = {
-    "kf-c16-first-choice-trailing-comment": [("a = int / tstr", "a = int ; c1\n / tstr", [" c1"]),
-                                             ("a = (int) / x", "a = (int ; c1\n) / x", [" c1"])],
     "kf-c16-newlines-deleted-in-multi-choice-group": [("a = [ int, tstr // bool // nil ]", "a = [ int, ; c1\n tstr // bool // nil ]", [" c1"])],
     "kf-c16-last-comment-of-second-group-choice": [("a = [ int // tstr ]", "a = [ int // tstr ; c1\n ]", [" c1"])],
     "kf-c16-grpchoice-comment-dropped": [("a = [ int // tstr ]", "a = [ int //\n ; c1\n tstr ]", [" c1"])],
 }
 
-# findings whose witnesses still fail on the tree under test; a classifier of a finding that was repaired is switched off,
-# so a document that still fails in that class is reported as a violation instead of being excused
-ACTIVE = {"hazards": None, "rules": None}
-
-
 def comment_hazards(slot, path, c0=()):
-    hz = comment_hazards_all(slot, path, c0)
-    if ACTIVE["hazards"] is not None:
-        hz = [h for h in hz if h in ACTIVE["hazards"]]
-    return hz
-
-
-def comment_hazards_all(slot, path, c0=()):
     """ids of the C16 findings whose classifier holds for a comment attached at `slot` with AST `path`
     (frames as printed by the driver, see harness/src/bin/c06.rs); c0 = all attached comments of the document"""
     hz = []
     groups = [f for f in path if f["f"] == "group"]
     last = path[-1] if path else None
-    if slot == "choice.after" and last and last["f"] == "type":
-        top = len(path) == 2 and path[0]["f"] == "rule"
-        # Type::fmt trims the line break of the first choice's trailing comment; with more than two choices the layout
-        # starts the next choice on a new line anyway
-        next_has_leading = any(x[0] == "choice.before" and x[2][:-1] == path[:-1] and x[2][-1].get("f") == "type" and x[2][-1].get("i") == 1
-                               for x in c0)
-        if last["i"] == 0 and (last["n"] == 2 or (last["n"] == 1 and not top) or next_has_leading):
-            hz.append("kf-c16-first-choice-trailing-comment")
     if slot == "grpchoice.before" and last and last["f"] == "group" and last["ne"] <= 1 and not last["doc"]:
         hz.append("kf-c16-grpchoice-comment-dropped")
     # "rendered last in" chain
@@ -1153,22 +1130,6 @@ def marker_catalogue():
     return cat
 
 
-def repaired_variant(cls, rendering):
-    """what the literal would print as once the proposed fix for its class is applied (design.d/C06-fix-*.patch); None if the
-    class has no literal-level fix or the fix does not change this rendering"""
-    base_cls = cls.split(".")[0]
-    if base_cls == "float":
-        if rendering.lstrip(b"-").isdigit():
-            return rendering + b".0"
-    if base_cls == "text":
-        inner = rendering[1:-1]
-        if b'"' in inner or b"\\" in inner:
-            return b'"' + inner.replace(b"\\", b"\\\\").replace(b'"', b'\\"') + b'"'
-    if base_cls == "unwrap":
-        return b"~" + rendering
-    return None
-
-
 def unwrap_L(o):
     return unhex(o[3:]) if o.startswith("OK ") else o
 
@@ -1223,21 +1184,19 @@ def comment_verdict(base_shape, src_comments, r):
     return "ok"
 
 
-def hazards_of(r, all_findings=False):
+def hazards_of(r):
     """{comment text: [finding ids]} for the comments attached in the source AST"""
-    f = comment_hazards_all if all_findings else comment_hazards
-    return {x[1]: f(x[0], x[2], r.get("c0", [])) for x in r.get("c0", [])}
+    return {x[1]: comment_hazards(x[0], x[2], r.get("c0", [])) for x in r.get("c0", [])}
 
 
 def probe_comment_findings(drv):
-    """{finding id: list of witnesses that still fail} for the C16 findings, and sets the active hazard set"""
+    """{finding id: list of witnesses that still fail} for the open C16 findings"""
     out = {}
     for fid, ws in C16_WITNESSES.items():
         b = roundtrips(drv, [w[0] for w in ws])
         r = roundtrips(drv, [w[1] for w in ws])
         out[fid] = [w for w, bb, rr in zip(ws, b, r) if verdict(bb) == "ok" and comment_verdict(bb["s0"], w[2], rr) != "ok"
-                    and fid in [h for hs in hazards_of(rr, True).values() for h in hs]]
-    ACTIVE["hazards"] = {f for f, w in out.items() if w}
+                    and fid in [h for hs in hazards_of(rr).values() for h in hs]]
     return out
 
 
@@ -1299,19 +1258,23 @@ def coq_expr_of(line):
 
 VM_PREAMBLE = "From Cddl Require Import Base.Bytes Fmt.Render Fmt.LitParse Fmt.Oracle Comments.Merge Comments.Lex.\nOpen Scope N_scope."
 
+# witnesses of the findings repaired in /repo (findings.d/C06.json "fixed"): the fixed corpus, runs first, must pass
+FIXED_WITNESSES = {
+    "float-integral f413e66 (+4743917)": ["a = 1.0", "a = 1.5e3", "a = 0x1p4", "a = -0.0", "a = 1e21", "a = 1.0..2.0", "a = { 1.0: int }"],
+    "text-not-escaped 030ea7c": ['a = "q\\"x"', 'a = "a\\\\b"', 'a = { "k\\"": int }'],
+    "unwrap-dropped 5fdde4e": ["a = ~b\nb = [int]", "a = ~b<int>"],
+    "tag-without-type 39ac196": ["a = #6", "a = #6.32"],
+    "operator-glued-to-name 36b2064": ["a = &b .size 1\nb = (x: 1)", "a = ~b .size 1", "a = &b .. 5"],
+    "control-glued-to-controller 36b2064": ['a = "x" .abnf bstr', "a = 1 .hex lc", 'a = "x" .abnf b64\'AA\''],
+    "comment first choice f022991": ["a = int ; c1\n / tstr", "a = int\n; c\n/ tstr"],
+}
+
 WITNESSES = {
-    "kf-c06-float-integral": ["a = 1.0", "a = 1.5e3", "a = 0x1p4", "a = -0.0", "a = 1e999", "a = 1e21"],
     "kf-c06-int-zero": ["a = -0"],
-    "kf-c06-text-not-escaped": ['a = "q\\"x"', 'a = "a\\\\b"'],
     "kf-c06-bytes-quote": ['a = h"it\'s"'],
-    "kf-c06-unwrap-dropped": ["a = ~b\nb = [int]"],
-    "kf-c06-tag-without-type": ["a = #6", "a = #6.32"],
-    "kf-c06-operator-glued-to-name": ["a = &b .size 1\nb = (x: 1)"],
-    "kf-c06-control-glued-to-controller": ['a = "x" .abnf bstr'],
     "kf-c06-comma-dropped-after-hash": ["a = [#, 1*2 int]", "a = [#1, (int)]"],
     "kf-c06-newline-in-literal-deleted": ['a = [ "x\ny" // int // tstr ]'],
-    "kf-c06-comment-breaks-reparse": ["a = int ; c1\n / tstr"],
-    "kf-c06-comment-migrates": ["a = int\n; c\n/ tstr"],
+    "kf-c06-comment-breaks-reparse": ["a = [ int, ; c1\n tstr // bool // nil ]", "a = [ int // tstr ; c1\n ]"],
 }
 
 
@@ -1404,7 +1367,6 @@ def run(tier, seed):
     rts = roundtrips(drv, [d for d in docs if d is not None])
     rt_iter = iter(rts)
     lit_stats = {}
-    lit_modes = {}
     for c, a, m, d in zip(cat, impl, model, docs):
         evaluations += 1
         cls = c[0]
@@ -1419,15 +1381,11 @@ def run(tier, seed):
             rendering += b"(x)"          # the driver prints the whole TaggedData node with the type `x`
         if cls == "cut":
             rendering = b"x" + rendering  # ... and the whole member key `x`
-        fixed = repaired_variant(cls, rendering)
-        if fixed is not None:
-            mode = "repaired" if got == fixed else "faithful"
-            lit_modes.setdefault(cls.split(".")[0], set()).add(mode)
-        if got != rendering and not (fixed is not None and got == fixed):
+        if cls == "tag.empty":
+            pass                         # TaggedData without content type: head only, no parentheses
+        if got != rendering:
             res.violation("renderer model and code differ on %s: code prints %r, Fmt/Render.v gives %r" % (c[1].replace("\t", " "), got, rendering),
                           {"kind": "literal", "driver_line": c[1], "oracle_line": c[2], "impl": a, "model": m.hex()})
-        if fixed is not None and got == fixed:
-            flag = "1"        # with the fix applied the literal has to survive the crate's own round trip
         if flag == "1":
             st["model_roundtrips"] += 1
         if d is not None:
@@ -1439,25 +1397,22 @@ def run(tier, seed):
                               % ("round-trips" if flag == "1" else "does not round-trip", c[2].replace("\t", " "), d, verdict(r)),
                               {"kind": "doc", "text": d, "oracle_line": c[2], "model": m.hex()})
 
-    for k, modes in lit_modes.items():
-        if len(modes) > 1:
-            res.violation("the %s renderer follows Fmt/Render.v for some values and the repaired form for others" % k,
-                          {"kind": "literal-mode", "class": k}, no_input=True)
-        elif modes == {"repaired"}:
-            res.notes.append("%s literals print in the repaired form of design.d/C06-fix-*.patch; Fmt/Render.v models the unrepaired renderer "
-                             "(update render_%s and its theorems when the fix is committed)" % (k, k))
-
-    # ---- B. witnesses of the open findings; classifiers of repaired findings are switched off for this run
-    ACTIVE["rules"] = None
-    ACTIVE["hazards"] = None
-    probe_comment_findings(drv)
-    still = set()
+    # ---- B. fixed corpus first (witnesses of repaired findings must pass: a recurrence is a VIOLATION), then the open findings
+    fixed_texts = [t for ts in FIXED_WITNESSES.values() for t in ts]
+    for t, r in zip(fixed_texts, roundtrips(drv, fixed_texts)):
+        evaluations += 1
+        if verdict(r) != "ok":
+            res.violation("a repaired finding is back: %r is formatted as %r (%s)" % (t, r.get("p1"), verdict(r)), {"kind": "doc", "text": t})
+    fixed_c = roundtrips(drv, [w[1] for w in C16_FIXED_WITNESSES])
+    fixed_b = roundtrips(drv, [w[0] for w in C16_FIXED_WITNESSES])
+    for w, bb, rr in zip(C16_FIXED_WITNESSES, fixed_b, fixed_c):
+        evaluations += 1
+        if verdict(bb) != "ok" or comment_verdict(bb["s0"], w[2], rr) != "ok" or verdict(rr) != "ok":
+            res.violation("a repaired comment finding is back: %r is formatted as %r" % (w[1], rr.get("p1")), {"kind": "doc", "text": w[1]})
     for fid, texts in WITNESSES.items():
         rs = roundtrips(drv, texts)
         failing = [t for t, r in zip(texts, rs) if verdict(r) not in ("ok", "rejected")]
         evaluations += len(texts)
-        if failing:
-            still.add(fid)
         if fid in open_findings:
             if failing:
                 hit(fid)
@@ -1465,7 +1420,6 @@ def run(tier, seed):
                 res.notes.append("finding %s apparently repaired: none of its witnesses fails any more" % fid)
         elif failing:
             res.violation("witness of %s fails but the finding is not listed as open: %r" % (fid, failing[0]), {"kind": "doc", "text": failing[0]})
-    ACTIVE["rules"] = still
 
     # ---- C. generated and corpus documents without comments
     g = Gen(rng, defects=0.06)
